@@ -269,7 +269,7 @@ func cmdCheck(w *World, cfg *RunCfg, prop, replay string, t0 time.Time) int {
 			"known_findings":           knownLines,
 			"explanation":              "every obligation is a named verification condition generated from the SSA of the current working tree and discharged by an SMT solver; see DESIGN.md",
 		},
-		"assumptions": append(sortedKeys(notes), propAssumptions(prop)...),
+		"assumptions": append(append(sortedKeys(notes), propAssumptions(prop)...), axiomAssumptions(w)...),
 	}
 	os.MkdirAll(filepath.Join(cfg.Verif, "evidence"), 0o755)
 	data, _ := json.MarshalIndent(ev, "", " ")
@@ -395,4 +395,14 @@ func cmdReplay(w *World, cfg *RunCfg, prop, path string) int {
 		}
 	}
 	return 0
+}
+
+// axiomAssumptions: the named axioms of the spec files that were handed to the solver in this run
+// (each is an unchecked assumption about a dependency, a declared-safe source or the vocabulary).
+func axiomAssumptions(w *World) []string {
+	var out []string
+	for _, n := range sortedKeys(w.UsedAxioms) {
+		out = append(out, "axiom "+n+" (spec files; assumed, not proved)")
+	}
+	return out
 }
